@@ -754,10 +754,15 @@ class Session:
                     self.probe("enc:or-shadow")
         if "enc:mask-false" in perts:
             have = {tuple(a) for a, _ in cons}
+            # KF08: a False-masked constraint on the choice that selects a switch's
+            # branch makes the switch resample (the masked update tags the choice
+            # UnknownChange): explored by KF08's witness only
+            feeders = set() if self.script.get("mask_false_on_index") else ref.index_feeders(self.node)
             free = [
                 a
                 for a in self.uni_addrs
                 if a in self.cons
+                and static_part(a) not in feeders
                 and a not in have
                 and a
                 and not any(h[: len(a)] == a or a[: len(h)] == h for h in have)
